@@ -149,6 +149,37 @@ def instantiate(hyps, goal):
     return out
 
 
+_SYM = {}
+
+
+def _symbols(t):
+    """names of the uninterpreted constants and functions of a term (memoised)"""
+    i = t.get_id()
+    hit = _SYM.get(i)
+    if hit is not None:
+        return hit[1]
+    out, seen, stack = set(), set(), [t]
+    while stack:
+        x = stack.pop()
+        if x.get_id() in seen:
+            continue
+        seen.add(x.get_id())
+        if z3.is_quantifier(x):
+            stack.append(x.body())
+        elif z3.is_app(x):
+            if x.decl().kind() == z3.Z3_OP_UNINTERPRETED:
+                out.add(x.decl().name())
+            stack.extend(x.children())
+    _SYM[i] = (t, out)
+    return out
+
+
+def _stringy(goal):
+    """does the goal mention regular expressions or substring tests? (then the string facts of the path matter)"""
+    sx = goal.sexpr()
+    return ("str.in_re" in sx) or ("str.contains" in sx) or ("str.prefixof" in sx) or ("str.suffixof" in sx)
+
+
 def strip_quantifiers(t):
     """replace quantified sub-formulas in positive position of a hypothesis by True (weakening)"""
     if z3.is_quantifier(t):
@@ -184,7 +215,21 @@ def check_valid(hyps, goal, timeout_ms=None, want_model=True):
     """is (hyps => goal) valid?"""
     timeout_ms = timeout_ms or QUICK_MS
     t0 = time.time()
+    hard = list(getattr(hyps, "hard", ()))
     hyps = list(hyps) + instantiate(hyps, goal)
+    if hard and _stringy(goal):
+        hyps = hyps + hard
+    if hard and _stringy(goal):
+        # string-heavy goal: first try with the hypotheses that share a symbol with it (fewer hypotheses: still a proof)
+        gs = _symbols(goal)
+        near = [h for h in hyps if not z3.is_quantifier(h) and (_symbols(h) & gs)]
+        s0 = z3.Solver()
+        s0.set("timeout", min(timeout_ms, 6000))
+        s0.add(*V.ground_facts())
+        s0.add(*near)
+        s0.add(z3.Not(goal))
+        if s0.check() == z3.unsat:
+            return Verdict("discharged", "z3-%s(api, relevant hypotheses)" % z3.get_version_string(), time.time() - t0)
     s = z3.Solver()
     s.set("timeout", timeout_ms)
     s.add(*base_facts())
@@ -203,7 +248,7 @@ def check_valid(hyps, goal, timeout_ms=None, want_model=True):
     # candidate counter-model that only the replay on the real code can confirm.
     qf = [strip_quantifiers(h) for h in hyps if not z3.is_quantifier(h)]
     s2 = z3.Solver()
-    s2.set("timeout", timeout_ms)
+    s2.set("timeout", max(2000, timeout_ms // 2))
     s2.add(*base_facts())
     s2.add(*qf)
     s2.add(z3.Not(goal))
@@ -214,7 +259,9 @@ def check_valid(hyps, goal, timeout_ms=None, want_model=True):
     if r2 == z3.sat and not _has_quantifier(goal):
         return Verdict("refuted", "z3-%s(api, quantifier-free weakening)" % z3.get_version_string(), time.time() - t0,
                        s2.model(), reason="full query: unknown (%s); counter-model of the quantifier-free weakening" % reason)
-    # second back end on the exported formula
+    # second back end on the exported formula (thorough tier only: it doubles the cost of a hopeless query)
+    if os.environ.get("VERIF_TIER_ACTIVE", "quick") != "thorough":
+        return Verdict("unknown", "z3-%s(api)" % z3.get_version_string(), time.time() - t0, None, reason)
     smt2 = s.to_smt2()
     v2 = _cli_z3(smt2, timeout_ms)
     if v2 is not None:
